@@ -155,6 +155,9 @@ class VersionRange:
             )
             parsed_constraints.append(constraint)
 
+        if len(parsed_constraints) > 1 and any(c.is_star() for c in parsed_constraints):
+            raise ValueError(f"{vers!r} contains an invalid '*' constraint.")
+
         # Constraints are sorted by version**. The canonical ordering is the versions
         # order. The ordering of ``<version-constraint>`` is not significant otherwise
         # but this sort order is needed when check if a version is contained in a range.
